@@ -1487,10 +1487,17 @@ def _m_sorted(ctx, it, key=None, reverse=False):
         order = sorted(range(len(items)), key=lambda i: keys[i], reverse=bool(reverse))
         return [items[i] for i in order]
     # insertion sort with forking comparisons (stable)
+    from .interp import PyExc
+
+    def lt(a, b):
+        try:
+            return a < b
+        except TypeError as e:
+            raise PyExc(e)
     idx = []
     for i in range(len(items)):
         j = len(idx)
-        while j > 0 and truth(ctx, keys[i] < keys[idx[j - 1]]):
+        while j > 0 and truth(ctx, lt(keys[i], keys[idx[j - 1]])):
             j -= 1
         idx.insert(j, i)
     out = [items[i] for i in idx]
@@ -1506,9 +1513,32 @@ def _m_sorted(ctx, it, key=None, reverse=False):
     return out
 
 
+import heapq as _heapq
+
+
+@register(_heapq.heappush)
+def _m_heappush(ctx, heap, item):
+    """heapq on a native list: ordering is decided by the concrete leading fields of the items."""
+    from .interp import PyExc
+    try:
+        return _heapq.heappush(heap, item)
+    except TypeError as e:
+        raise PyExc(e)
+
+
+@register(_heapq.heappop)
+def _m_heappop(ctx, heap):
+    from .interp import PyExc
+    try:
+        return _heapq.heappop(heap)
+    except (TypeError, IndexError) as e:
+        raise PyExc(e)
+
+
 @register(builtins.enumerate)
 def _m_enumerate(ctx, it, start=0):
-    return [(i + start, x) for i, x in enumerate(_values(ctx, it))]
+    from .interp import GenList
+    return GenList([(i + start, x) for i, x in enumerate(_values(ctx, it))])      # an iterator, like the real enumerate object
 
 
 @register(builtins.zip)
